@@ -1032,3 +1032,48 @@ def origin_call(body, op, depth=0):
     if TRANSPARENT.search(nm) and t['args']:
         return origin_call(body, t['args'][0], depth + 1)
     return d[2]
+
+
+# ------------------------------------------------------------------------------ EXHAUSTIVE-LOOP
+def exhaustive_loop(P, fn_qual, allow_exits=0):
+    """every `for` loop of F runs until its iterator is exhausted: the only edges leaving a loop are the iterator's
+    `None` arm and error returns (no `break` / early `return Ok` that depends on an element)"""
+    fn = P.fn(fn_qual)
+    body = P.body(fn)
+    r = Res()
+    heads = [bi for bi, t in body.calls_named(r'Iterator::next$')]
+    if not heads:
+        raise AnchorMissing('`%s` has no iterator loop' % fn_qual)
+    early = 0
+    for h in heads:
+        fwd = body.reach([h])
+        loop = set(b for b in fwd if h in body.reach(body.succs(b)))
+        loop.add(h)
+        if len(loop) < 2:
+            continue
+        r.site('%s loop @%s (%d blocks)' % (fn['qual'], body.ln(h), len(loop)))
+        # the block that switches on the discriminant of next()'s result
+        nxt_local = body.term(h)['dest']['l']
+        none_exits = set()
+        for b in loop:
+            t = body.term(b)
+            if t['k'] == 'switch':
+                for st in body.B[b]['st']:
+                    if st['rv']['k'] == 'discr' and st['rv']['pl']['l'] == nxt_local and not st['rv']['pl']['p']:
+                        none_exits.add(b)
+        for b in loop:
+            for s in body.succs(b):
+                if s in loop:
+                    continue
+                if b in none_exits:
+                    continue
+                # error exits: the successor cannot reach a success return, or is an error-origin block
+                if s in body.err_blocks or not body.can_succeed(s):
+                    continue
+                # drop / cleanup chains that rejoin the loop are inside `loop`; anything else is an early exit
+                early += 1
+                if early > allow_exits:
+                    r.bad('early-exit@%s' % body.ln(h).split(':')[-1] if False else 'early-exit',
+                          'in `%s` the loop at %s can be left before the iterator is exhausted (edge at %s): the remaining elements are not processed'
+                          % (fn['qual'], body.ln(h), body.ln(b)), where=[body.ln(b), body.ln(h)])
+    return r
